@@ -480,7 +480,7 @@ def impl_prep(fmt, allow, s):
 
 def correspond(ctx):
     rng = ctx.rng
-    sums = fixed_summaries() + [rand_summary(rng) for _ in range(ctx.n(500, 6000))]
+    sums = fixed_summaries() + [rand_summary(rng) for _ in range(ctx.n(1200, 8000))]
     reqs, outs, nontriv, classes = [], [], [], []
     for s in sums:
         for fmt in FORMATS:
